@@ -92,6 +92,88 @@ func (e *Engine) guardedCoverage(prop string) []*FuncReport {
 		}
 	}
 	reps = append(reps, e.ownedCoverage(prop)...)
+	reps = append(reps, e.callersCoverage(prop)...)
+	return reps
+}
+
+// CallersSpec: `callers (*T).M only fn1, fn2 for PROP`: M is a variant of an operation that is
+// only correct in a restricted setting (an unlocked push, legitimate on a slice no other
+// goroutine can see); the clause lists the functions that may call it.  Checked on the syntax
+// of the whole repository: one obligation per function (function literals count as part of the
+// declaration they are written in) that contains a call resolving statically to M.
+type CallersSpec struct {
+	Key     string
+	Allowed []string
+	Props   []string
+}
+
+func (e *Engine) callersCoverage(prop string) []*FuncReport {
+	var reps []*FuncReport
+	for _, cs := range e.Callers {
+		has := false
+		for _, p := range cs.Props {
+			if p == prop {
+				has = true
+			}
+		}
+		if !has {
+			continue
+		}
+		var pkgPaths []string
+		for pp := range e.All {
+			if strings.HasPrefix(pp, RepoModule) {
+				pkgPaths = append(pkgPaths, pp)
+			}
+		}
+		sort.Strings(pkgPaths)
+		for _, pp := range pkgPaths {
+			pkg := e.All[pp]
+			for _, f := range pkg.Syntax {
+				for _, d := range f.Decls {
+					fd, ok := d.(*ast.FuncDecl)
+					if !ok || fd.Body == nil {
+						continue
+					}
+					calls := false
+					ast.Inspect(fd.Body, func(n ast.Node) bool {
+						sel, ok := n.(*ast.SelectorExpr)
+						if !ok {
+							return true
+						}
+						if s, ok := pkg.TypesInfo.Selections[sel]; ok && (s.Kind() == types.MethodVal || s.Kind() == types.MethodExpr) {
+							if m, ok := s.Obj().(*types.Func); ok && FuncKey(m) == cs.Key {
+								calls = true // a call or a method value: either way the method gets out
+							}
+						}
+						return true
+					})
+					if !calls {
+						continue
+					}
+					obj, _ := pkg.TypesInfo.Defs[fd.Name].(*types.Func)
+					if obj == nil {
+						continue
+					}
+					key := FuncKey(obj)
+					allowed := false
+					for _, o := range cs.Allowed {
+						if o == fd.Name.Name || o == shortKey(key) {
+							allowed = true
+						}
+					}
+					fi := e.Funcs[key]
+					c := e.newCtx(fi, e.Contracts[key])
+					st := &State{pc: "true", vars: map[types.Object]Val{}, heap: map[string]string{}, alloc: "0"}
+					goal := "false"
+					if allowed {
+						goal = "true"
+					}
+					c.oblige(st, "restricted-call", shortKey(cs.Key), goal, "only "+strings.Join(cs.Allowed, ", ")+" may call "+shortKey(cs.Key), false, fd)
+					reps = append(reps, &FuncReport{Key: key, Obls: c.Obls, Ctx: c})
+				}
+			}
+		}
+	}
 	return reps
 }
 
